@@ -1,53 +1,37 @@
 // C05 (wiring part, engine K): ordinary draws consult the limiter, forced draws do not, and skipped draws lose nothing.
 // The two token buckets themselves are decided by engine M from their MIR (engine/props/C05.py).
-// @file-encodes state::BarState::draw, state::BarState::tick, state::BarState::update_estimate_and_draw, draw_target::ProgressDrawTarget::drawable, draw_target::Drawable::state, draw_target::Drawable::draw, style::ProgressStyle::format_state
-// @file-assumes RateLimiter::allow is replaced by a harness-controlled verdict (its law is engine M's subject); BarState built directly over the abstract screen; template "{pos}/{len} {msg}", values < 100
+// @file-encodes state::BarState::draw, state::BarState::tick, state::BarState::update_estimate_and_draw, state::BarState::set_length, draw_target::ProgressDrawTarget::drawable, draw_target::Drawable::state, draw_target::Drawable::draw
+// @file-assumes RateLimiter::allow is replaced by a harness-controlled verdict (its law is engine M's subject); BarState built directly; ProgressStyle::format_state replaced by a recorder of the state it is handed; DrawState::draw_to_term by its contract
 #[cfg(kani)]
 mod verif_c05_wiring {
     use super::verif_rig_state::*;
     use super::*;
-    use crate::draw_target::verif_rig_dt::RL_VERDICT;
-    use crate::draw_target::verif_scr::*;
+    use crate::draw_target::verif_rig_dt::*;
     use crate::style::verif_rig_style::*;
     use crate::verif_common::*;
 
-    struct Exp {
-        b: [u8; 16],
-        n: usize,
-    }
-    fn put_num(e: &mut Exp, v: u64) {
-        if v >= 10 {
-            e.b[e.n] = b'0' + (v / 10) as u8;
-            e.n += 1;
-        }
-        e.b[e.n] = b'0' + (v % 10) as u8;
-        e.n += 1;
-    }
-
-    // @harness id=C05 tier=quick timeout=3000 mem=12
-    // @bounds limiter refusing: an ordinary draw reaches no terminal call, a forced draw does; then two updates (position, length, message from a table) under a refusing limiter followed by one admitted ordinary draw: the painted frame shows the LATEST position, length and message
+    // @harness id=C05 tier=quick timeout=1800 mem=6 checks=rust
+    // @bounds limiter refusing: ordinary draws reach nothing while position (u64), length (u64) and message are updated twice; then one admitted ordinary draw or one forced draw under a still refusing limiter: exactly one frame, rendered from the LATEST position, length and message
     #[kani::proof]
-    #[kani::unwind(13)]
-    //@STUBS std now widthascii repeat noterm nomulti rlctl noweight
+    #[kani::unwind(6)]
+    //@STUBS std now widthascii noterm nomulti rlctl noweight fsrecord dttcontract
     fn c05_skipped_draws_lose_nothing() {
-        let scr = leak_scr(16, 4);
-        scr_with_frame(scr, 2, 0);
-        let now = mk_instant(1_000_000, 0);
-        let spec = [RigPart::Key("pos"), RigPart::Lit("/"), RigPart::Key("len"), RigPart::Lit(" "), RigPart::Key("msg")];
-        let mut ps = rig_pstate(1, Some(2), 0, 0);
-        ps.message = TabExpandedString::NoTabs("m0".into());
-        let mut bs = rig_bar(ps, rig_style_spec(&spec), scr_target_limited(scr, 20, 0, now, 0), ProgressFinish::AndLeave);
         unsafe {
+            SLEN = 0;
+            DRAWS = 0;
+            LOG_FLOOR = 0;
+            FS_CALLS = 0;
             RL_VERDICT = false;
         }
-        // refused: nothing reaches the terminal
+        let now = mk_instant(1_000_000, 0);
+        let mut ps = rig_pstate(1, Some(2), 0, 0);
+        ps.message = TabExpandedString::NoTabs("m0".into());
+        let mut bs = rig_bar(ps, rig_style_empty(), null_target(16, 8, 0), ProgressFinish::AndLeave);
         assert!(bs.draw(false, now).is_ok());
-        assert!(scr.calls.get() == 0);
-        // two skipped updates
+        assert!(unsafe { DRAWS } == 0);
         let p1: u64 = kani::any();
         let p2: u64 = kani::any();
         let l2: u64 = kani::any();
-        kani::assume(p1 < 100 && p2 < 100 && l2 < 100);
         bs.state.set_pos(p1);
         bs.tick(now);
         bs.state.set_pos(p2);
@@ -55,30 +39,21 @@ mod verif_c05_wiring {
         let which: bool = kani::any();
         bs.state.message = TabExpandedString::new(if which { "ab".into() } else { "cd".into() }, bs.tab_width);
         bs.update_estimate_and_draw(now);
-        assert!(scr.calls.get() == 0);
-        // forced draws bypass the limiter
+        assert!(unsafe { DRAWS } == 0 && unsafe { FS_CALLS } == 0);
         let forced: bool = kani::any();
         if !forced {
             unsafe {
                 RL_VERDICT = true;
             }
         }
-        scr.capture.set(true);
         assert!(bs.draw(forced, now).is_ok());
-        let mut e = Exp { b: [0; 16], n: 0 };
-        put_num(&mut e, p2);
-        e.b[e.n] = b'/';
-        e.n += 1;
-        put_num(&mut e, l2);
-        e.b[e.n] = b' ';
-        e.n += 1;
-        e.b[e.n] = if which { b'a' } else { b'c' };
-        e.b[e.n + 1] = if which { b'b' } else { b'd' };
-        e.n += 2;
-        assert!(scr.flushes.get() == 1);
-        assert!(scr.cap_is(&e.b, e.n));
+        unsafe {
+            assert!(DRAWS == 1 && FS_CALLS == 1);
+            assert!(FS_POS == p2 && FS_LEN == Some(l2));
+            assert!(FS_MSG0 == if which { b'a' } else { b'c' });
+        }
         kani::cover!(forced);
-        kani::cover!(!forced && p2 == 99);
+        kani::cover!(!forced && p2 == u64::MAX);
         std::mem::forget(bs);
     }
 }
